@@ -243,5 +243,128 @@ proof fn lemma_bridge_reach(c: Cfg, s: CEnc, cum: nat, p: nat, prec: nat)
     requires cfg_ok(c, prec), cinv(c, s), entry_ok(cum, p, prec), s.sit is Inverted
     ensures false
 {}
+// =====================================================================================
+// C11 / C02, composition: the words written by sealing (math copy `seal_seq` of the documented
+// sealing rule), followed by ANY further words, denote data inside the encoder's interval.
+// State = 2 Words.  (The machine-level `seal_words` of the range_seal unit is this function on
+// machine values.)
+// =====================================================================================
+pub mod imath {
+use vstd::prelude::*;
+use vstd::arithmetic::power2::*;
+verus! {
+//@INCLUDE frag_range_interval.rs
+}
+}
+pub mod smath {
+use vstd::prelude::*;
+use vstd::arithmetic::power2::*;
+use vstd::arithmetic::div_mod::*;
+use vstd::arithmetic::mul::*;
+verus! {
+//@INCLUDE frag_seal.rs
+}
+}
+pub open spec fn icfg(c: Cfg) -> imath::Cfg { imath::Cfg { wb: c.wb, sb: c.sb } }
+pub open spec fn ienc(e: Enc) -> imath::Enc { imath::Enc { l: e.l, r: e.r, n: e.n } }
+
+proof fn lemma_val_concat1(c: Cfg, a: Seq<nat>, x: nat) ensures val(c, a + seq![x]) == val(c, a) * W(c) + x
+{ assert(a + seq![x] =~= a.push(x)); lemma_val_push(c, a, x); }
+
+proof fn lemma_pv_is_val(c: Cfg, d: Seq<nat>, m: nat)
+    requires m <= d.len()
+    ensures imath::pv(icfg(c), d, m) == val(c, d.subrange(0, m as int))
+    decreases m
+{
+    if m == 0 { assert(d.subrange(0, 0).len() == 0); }
+    else {
+        lemma_pv_is_val(c, d, (m - 1) as nat);
+        let t = d.subrange(0, m as int);
+        assert(t.drop_last() =~= d.subrange(0, m - 1));
+        assert(t.last() == d[m - 1]);
+    }
+}
+
+pub proof fn thm_seal_contains(c: Cfg, s: CEnc, sigma: Seq<nat>)
+    requires c.wb >= 1, c.sb == 2 * c.wb, cinv(c, s), forall|i: int| 0 <= i < sigma.len() ==> sigma[i] < W(c)
+    ensures imath::contains(icfg(c), ienc(abs(c, s)), s.bulk + seal_seq(c, s) + sigma)
+{
+    let w = W(c); let m = M(c); let th = TH(c);
+    lemma_pow2_pos(c.wb); lemma_pow2_adds(c.wb, c.wb); assert(c.wb + c.wb == 2 * c.wb);
+    assert((c.sb - c.wb) as nat == c.wb);
+    assert(th == w && m == w * w);
+    assert(imath::nwin(icfg(c)) == 2) by { lemma_div_multiples_vanish(2, c.wb as int); lemma_mul_is_commutative(2, c.wb as int); }
+    let d = s.bulk + seal_seq(c, s) + sigma;
+    let pend = seal_pending(c, s);
+    let npend: nat = match s.sit { Sit::Normal => 0, Sit::Inverted(n, _) => n };
+    assert(pend.len() == npend);
+    let pw = seal_pw(c, s); let two = seal_two(c, s); let carry = seal_carry(c, s);
+    let x: nat = if two { 0 } else if sigma.len() > 0 { sigma[0] } else { 0 };
+    let e = abs(c, s);
+    let mm = e.n + 2;
+    assert(e.n == s.bulk.len() + npend);
+    // the seal window lemma
+    smath::lemma_seal_window(c.wb, s.lower, s.range, x);
+    assert(smath::th_of(c.wb) == th);
+    let (v, cy) = smath::seal_window(c.wb, s.lower, s.range, x);
+    assert(cy == carry);
+    assert(v == (if carry { m } else { 0 }) + pw * th + x);
+    // value of the first mm words of d (zero padded)
+    let base = s.bulk + pend;
+    let pvv = imath::pv(icfg(c), d, mm);
+    assert(pvv == (val(c, base) * w + pw) * w + x) by {
+        if mm <= d.len() {
+            lemma_pv_is_val(c, d, mm);
+            let t = d.subrange(0, mm as int);
+            assert(t =~= base + seq![pw] + seq![x]);
+            lemma_val_concat1(c, base + seq![pw], x);
+            lemma_val_concat1(c, base, pw);
+        } else {
+            // one seal word and no suffix: the missing word is padded with zero
+            assert(!two && sigma.len() == 0 && d.len() + 1 == mm);
+            lemma_pv_is_val(c, d, d.len());
+            assert(d.subrange(0, d.len() as int) =~= base + seq![pw]);
+            lemma_val_concat1(c, base, pw);
+        }
+    }
+    // value of bulk ++ pending
+    let b = val(c, s.bulk);
+    match s.sit {
+        Sit::Normal => {
+            assert(base =~= s.bulk);
+            assert(!carry);   // normal: lower + range < M and range >= TH
+        }
+        Sit::Inverted(n, first) => {
+            if carry {
+                assert(base =~= s.bulk.push(first + 1) + rep(0, (n - 1) as nat));
+                lemma_val_rep0(c, s.bulk.push(first + 1), (n - 1) as nat);
+                lemma_val_push(c, s.bulk, first + 1);
+                let kk = pow2(c.wb * ((n - 1) as nat));
+                lemma_pow2_pos(c.wb * ((n - 1) as nat));
+                assert((b * w + first + 1) * kk >= 1) by (nonlinear_arith) requires kk >= 1;
+                assert(val(c, base) == pend_val(c, b, n, first) + 1);
+            } else {
+                assert(base =~= s.bulk.push(first) + rep((w - 1) as nat, (n - 1) as nat));
+                lemma_val_repff(c, s.bulk.push(first), (n - 1) as nat);
+                lemma_val_push(c, s.bulk, first);
+                let kk = pow2(c.wb * ((n - 1) as nat));
+                lemma_pow2_pos(c.wb * ((n - 1) as nat));
+                assert((b * w + first + 1) * kk >= 1) by (nonlinear_arith) requires kk >= 1;
+                assert(val(c, base) == pend_val(c, b, n, first));
+            }
+        }
+    }
+    // assemble: pvv == PV*M + v  and  L == PV*M + lower
+    let pvb: nat = match s.sit { Sit::Normal => b, Sit::Inverted(n, first) => pend_val(c, b, n, first) };
+    assert(val(c, base) == pvb + (if carry { 1nat } else { 0nat }));
+    assert(pvv == pvb * m + v) by (nonlinear_arith)
+        requires pvv == (val(c, base) * w + pw) * w + x, val(c, base) == pvb + (if carry { 1nat } else { 0nat }), m == w * w, th == w, v == (if carry { m } else { 0 }) + pw * th + x;
+    assert(e.l == pvb * m + s.lower);
+}
+proof fn thm_seal_contains_reach(c: Cfg, s: CEnc, sigma: Seq<nat>)
+    requires c.wb >= 1, c.sb == 2 * c.wb, cinv(c, s), forall|i: int| 0 <= i < sigma.len() ==> sigma[i] < W(c), s.sit is Inverted, seal_carry(c, s)
+    ensures false
+{}
+
 } // verus!
 fn main() {}
